@@ -144,7 +144,6 @@ def justified : List (String × String) := [
   ("x/evm/keeper.updateValsetAttester.Execute#a.msg.Action.(*types.Message_UpdateValset)", "the attester is constructed by routerAttester's type switch on this very action"),
   ("x/evm/keeper.uploadSmartContractAttester.Execute#a.msg.Action.(*types.Message_UploadSmartContract)", "the attester is constructed by routerAttester's type switch on this very action"),
   ("x/evm/keeper.uploadUserSmartContractAttester.Execute#a.msg.Action.(*types.Message_UploadUserSmartContract)", "the attester is constructed by routerAttester's type switch on this very action"),
-  ("x/evm/keeper.uploadUserSmartContractAttester.attest#event[0]", "ASSUMPTION (governance-supplied, not validator-supplied): the compass ABI accepted by governance declares ContractDeployed with one non-indexed address, so a successful Unpack yields one value"),
   ("x/evm/keeper.clampToZero#[]math.LegacyDec{math.LegacyZeroDec()}[0]", "index 0 of a one-element literal"),
   ("x/evm/types.BuildCompassConsensus#sig.Signature[64]", "signatures are stored only after VerifySignature, whose Ecrecover refuses anything but 65 bytes (C06)"),
   ("x/evm/types.BuildCompassConsensus#sig.Signature[:32]", "signatures are stored only after VerifySignature, whose Ecrecover refuses anything but 65 bytes (C06)"),
